@@ -5,8 +5,9 @@
    Invariant of the session (file_path_ok): the path text is exactly "/" or starts with '/' followed by a byte other
    than '/' (true of every parsed file URL); clear / pop / pop_if_empty / push / extend all keep it.
    On a path longer than "/" none of (1)-(3) can happen (C06_SegPush.parse_path_segment_exact_file); on the root path "/"
-   they cannot happen when the text push writes for the segment does not start with a letter followed by ':' or '|'
-   (root_seg_ok).  Under that computable side condition on the pushes made at the root (file_session_ok) the
+   (1) cannot happen when no flush of the pending text (at a TAB / LF / CR of the argument) leaves exactly a drive
+   letter "C:" in front of a further character, and (2) changes nothing unless the written text is a letter followed
+   by '|' (root_seg_ok); (3) never happens, the first written byte is not a '/'.  Under that computable side condition on the pushes made at the root (file_session_ok) the
    session returns with_path u (session_text STFile ...), like on the other scheme types. *)
 From RU Require Import Base.Prelude Base.Utf8 Base.Utf8Facts Model.AsciiSet Gen.Tables Model.PercentEncoding
   Model.HostT Model.UrlRecord Model.Parser Model.Setters Model.WF
@@ -79,83 +80,81 @@ Proof.
 Qed.
 
 (* ---------- the side condition on a push made at the root path ---------- *)
-(* the text starts with a letter followed by ':' or '|' *)
-Definition wdl2 (t : list N) : bool :=
-  match t with a :: b :: _ => is_alpha a && ((b =? 58) || (b =? 124)) | _ => false end.
-Definition root_seg_ok (seg : list N) : bool := negb (wdl2 (seg_text STFile seg)).
-
-Lemma is_wdl_wdl2 t : is_wdl t = true -> wdl2 t = true.
-Proof.
-  unfold is_wdl. intros H. apply andb_true_iff in H. destruct H as [H1 H2].
-  destruct t as [|a [|b [|c r]]]; try discriminate H1. unfold starts_with_wdl in H2. rewrite andb_true_r in H2.
-  unfold wdl2. exact H2.
-Qed.
-
-Lemma nwdl_shape2 l : is_normalized_wdl l = true -> exists a, l = [a; 58] /\ is_alpha a = true.
-Proof.
-  intros H. destruct (nwdl_shape l H) as [a ->]. exists a. split; [reflexivity|].
-  unfold is_normalized_wdl in H. apply andb_true_iff in H. destruct H as [H1 _]. apply is_wdl_wdl2 in H1.
-  unfold wdl2 in H1. apply andb_true_iff in H1. tauto.
-Qed.
-
 Definition etext (l : list N) : list N := encode (seg_set STFile) (utf8_encode l).
 
 Lemma etext_app a b : etext (a ++ b) = etext a ++ etext b.
 Proof. unfold etext. rewrite utf8_encode_app, encode_app. reflexivity. Qed.
 
-(* ---------- parse_path in the PathSegmentSetter context on a file URL: no drive letter in front of any flush ---------- *)
-Lemma ppl_seg_file2 dbg ps l : forall ser ss pend hh, usv_list (rev pend ++ l) ->
-  (forall l1 l2, rev pend ++ strip_tnl l = l1 ++ l2 -> is_normalized_wdl (nskipn (ps + 1) (ser ++ etext l1)) = false) ->
-  parse_path_loop dbg CPathSegmentSetter STFile ps l ser ss pend hh
-  = (' (s2, hh') <~ finish_segment dbg STFile ps (ser ++ etext (rev pend ++ strip_tnl l)) ss false hh ;;
+(* parse_path's input iterator drops TAB / LF / CR, but the loop FLUSHES the pending text at each of them; a later
+   character that finds the flushed text to be exactly a normalized drive letter ("C:") gets a '/' in front.
+   flush_ok acc pend l: that never happens on the input l (acc = the text flushed so far, pend = pending, reversed) *)
+Fixpoint flush_ok (acc pend l : list N) : bool :=
+  match l with
+  | [] => true
+  | c :: r => if is_tnl c then flush_ok (acc ++ rev pend) [] r
+              else negb (is_normalized_wdl (etext acc)) && flush_ok acc (c :: pend) r
+  end.
+(* the written text is a letter followed by '|' (rewritten to ':' when it is the first segment) *)
+Definition wdl_bar (t : list N) : bool := match t with [a; b] => is_alpha a && (b =? 124) | _ => false end.
+Definition root_seg_ok (seg : list N) : bool := flush_ok [] [] seg && negb (wdl_bar (seg_text STFile seg)).
+
+Lemma is_wdl_cases t : is_wdl t = true -> exists a b, t = [a; b] /\ is_alpha a = true /\ (b = 58 \/ b = 124).
+Proof.
+  unfold is_wdl. intros H. apply andb_true_iff in H. destruct H as [H1 H2].
+  destruct t as [|a [|b [|c r]]]; try discriminate H1. unfold starts_with_wdl in H2. rewrite andb_true_r in H2.
+  apply andb_true_iff in H2. destruct H2 as [Ha Hb]. exists a, b. split; [reflexivity|]. split; [exact Ha|]. lia.
+Qed.
+
+(* ---------- parse_path in the PathSegmentSetter context on a file URL, from the root path ---------- *)
+Lemma ppl_root dbg ps x : nlen x = ps + 1 -> forall l acc ss pend hh, usv_list (rev pend ++ l) ->
+  flush_ok acc pend l = true ->
+  parse_path_loop dbg CPathSegmentSetter STFile ps l (x ++ etext acc) ss pend hh
+  = (' (s2, hh') <~ finish_segment dbg STFile ps (x ++ etext (acc ++ rev pend ++ strip_tnl l)) ss false hh ;;
      POk (file_path_fixup STFile ps s2, hh', [])).
 Proof.
-  induction l as [|c r IH]; intros ser ss pend hh Hu Hn.
-  - cbn [parse_path_loop strip_tnl filter]. rewrite app_nil_r in *. rewrite push_pending_enc by exact Hu. reflexivity.
+  intros Lx. induction l as [|c r IH]; intros acc ss pend hh Hu Hok.
+  - cbn [parse_path_loop strip_tnl filter]. rewrite app_nil_r in *. rewrite push_pending_enc by exact Hu.
+    fold (etext (rev pend)). rewrite <- app_assoc, <- etext_app. reflexivity.
   - apply usv_list_app in Hu. destruct Hu as [Hu1 Hu2]. inversion Hu2 as [|? ? Hc Hr]; subst.
-    cbn [parse_path_loop]. unfold strip_tnl. cbn [filter]. fold (strip_tnl r). unfold not_tnl at 1.
+    cbn [parse_path_loop]. cbn [flush_ok] in Hok.
     assert (strip_tnl (c :: r) = if is_tnl c then strip_tnl r else c :: strip_tnl r) as Es.
     { unfold strip_tnl. cbn [filter]. unfold not_tnl at 1. destruct (is_tnl c); reflexivity. }
-    destruct (is_tnl c) eqn:Et; cbn [negb].
-    + rewrite push_pending_enc by exact Hu1. fold (etext (rev pend)).
-      rewrite (IH (ser ++ etext (rev pend)) ss [] hh).
-      * cbn [rev app]. rewrite <- app_assoc. rewrite <- etext_app. reflexivity.
-      * exact Hr.
-      * intros l1 l2 E. cbn [rev app] in E. rewrite <- app_assoc. rewrite <- etext_app.
-        apply (Hn (rev pend ++ l1) l2). rewrite Es, E. rewrite app_assoc. reflexivity.
-    + cbn [ctx_eqb negb andb]. rewrite andb_false_r.
-      pose proof (Hn [] (rev pend ++ strip_tnl (c :: r)) eq_refl) as Hn0.
-      change (etext []) with (@nil N) in Hn0. rewrite app_nil_r in Hn0. rewrite Hn0. rewrite andb_false_r.
-      rewrite (IH ser ss (c :: pend) hh).
-      * cbn [rev]. rewrite <- app_assoc. reflexivity.
+    rewrite Es. destruct (is_tnl c) eqn:Et.
+    + rewrite push_pending_enc by exact Hu1. fold (etext (rev pend)). rewrite <- app_assoc, <- etext_app.
+      rewrite (IH (acc ++ rev pend) ss [] hh Hr Hok). cbn [rev app]. rewrite <- app_assoc. reflexivity.
+    + apply andb_true_iff in Hok. destruct Hok as [Hn Hok]. apply negb_true_iff in Hn.
+      cbn [ctx_eqb negb andb]. rewrite andb_false_r.
+      rewrite <- Lx. rewrite nskipn_app_exact. rewrite Hn. rewrite andb_false_r.
+      rewrite (IH acc ss (c :: pend) hh).
+      * cbn [rev]. rewrite <- !app_assoc. reflexivity.
       * cbn [rev]. rewrite <- app_assoc. apply usv_list_app. split; [exact Hu1 | constructor; assumption].
-      * intros l1 l2 E. apply (Hn l1 l2). rewrite Es. rewrite <- E. cbn [rev]. rewrite <- app_assoc. reflexivity.
+      * exact Hok.
 Qed.
 
 (* one segment pushed at the root path "/" *)
 Theorem parse_path_segment_exact_root dbg ps s0 seg : nlen s0 = ps -> usv_list seg ->
   seg_skipped (strip_tnl seg) = false -> root_seg_ok seg = true ->
-  parse_path dbg CPathSegmentSetter STFile true ps (s0 ++ [47]) seg = POk ((s0 ++ [47]) ++ seg_text STFile seg, true, []).
+  exists hh, parse_path dbg CPathSegmentSetter STFile true ps (s0 ++ [47]) seg = POk ((s0 ++ [47]) ++ seg_text STFile seg, hh, []).
 Proof.
-  intros Hps Hu Hk Hr. unfold parse_path. unfold root_seg_ok in Hr. apply negb_true_iff in Hr.
+  intros Hps Hu Hk Hr. unfold parse_path. unfold root_seg_ok in Hr. apply andb_true_iff in Hr. destruct Hr as [Hfl Hbar].
+  apply negb_true_iff in Hbar.
   assert (nlen (s0 ++ [47]) = ps + 1) as Lx by (rewrite nlen_app; change (nlen [47]) with 1; lia).
   set (x := s0 ++ [47]) in *.
-  assert (forall l1 l2, rev [] ++ strip_tnl seg = l1 ++ l2 -> is_normalized_wdl (nskipn (ps + 1) (x ++ etext l1)) = false) as Hn.
-  { intros l1 l2 E. cbn [rev app] in E. rewrite <- Lx. rewrite nskipn_app_exact.
-    destruct (is_normalized_wdl (etext l1)) eqn:En; [|reflexivity]. exfalso.
-    apply nwdl_shape2 in En. destruct En as (a & Ea & Ha).
-    unfold seg_text in Hr. rewrite E in Hr. fold (etext (l1 ++ l2)) in Hr. rewrite etext_app, Ea in Hr.
-    cbn [app wdl2] in Hr. rewrite Ha in Hr. cbn in Hr. discriminate Hr. }
-  rewrite (ppl_seg_file2 dbg ps seg x (nlen x) [] true Hu Hn).
-  cbn [rev app]. fold (seg_text STFile seg) in *. change (etext (strip_tnl seg)) with (seg_text STFile seg).
+  pose proof (ppl_root dbg ps x Lx seg [] (nlen x) [] true Hu Hfl) as Hl.
+  change (etext []) with (@nil N) in Hl. rewrite app_nil_r in Hl. rewrite Hl. clear Hl.
+  cbn [rev app]. change (etext (strip_tnl seg)) with (seg_text STFile seg).
   destruct (seg_text_not_dots STFile seg Hu Hk) as [Hd Hs].
-  assert (finish_segment dbg STFile ps (x ++ seg_text STFile seg) (nlen x) false true = POk (x ++ seg_text STFile seg, true)) as Ef.
+  assert (exists hh, finish_segment dbg STFile ps (x ++ seg_text STFile seg) (nlen x) false true = POk (x ++ seg_text STFile seg, hh)) as [hh Ef].
   { unfold finish_segment. rewrite slice_o_some by (rewrite nlen_app; lia). cbn [of_option pbind].
     rewrite nskipn_app_exact. rewrite nfirstn_all by (rewrite nlen_app; lia). rewrite Hd, Hs.
-    replace (is_wdl (seg_text STFile seg)) with false; [rewrite andb_false_r; reflexivity|].
-    symmetry. destruct (is_wdl (seg_text STFile seg)) eqn:Ew; [|reflexivity].
-    apply is_wdl_wdl2 in Ew. congruence. }
-  rewrite Ef. cbn [pbind]. f_equal. f_equal. f_equal.
+    destruct (is_wdl (seg_text STFile seg)) eqn:Ew.
+    - destruct (is_wdl_cases _ Ew) as (a & b & Et & Ha & Hb). rewrite Et in *.
+      assert (b = 58) as ->.
+      { destruct Hb as [Hb|Hb]; [exact Hb|]. subst b. cbn [wdl_bar] in Hbar. rewrite Ha in Hbar. discriminate Hbar. }
+      exists false. cbn [st_is_file andb]. rewrite Lx. rewrite N.eqb_refl. cbn [andb].
+      unfold truncate. rewrite <- Lx. rewrite nfirstn_app_exact. reflexivity.
+    - exists true. rewrite andb_false_r. reflexivity. }
+  rewrite Ef. cbn [pbind]. exists hh. f_equal. f_equal. f_equal.
   unfold file_path_fixup. cbn [st_is_file]. unfold x. rewrite <- !app_assoc. rewrite <- Hps.
   rewrite nfirstn_app_exact, nskipn_app_exact. cbn [app drop_while]. change (is_slash 47) with true. cbv iota.
   rewrite drop_slash_seg_text. reflexivity.
@@ -222,7 +221,7 @@ Proof.
     destruct (file_path_ok_inv P HP) as [EP|HP1].
     + subst P. replace (fpi_b [47]) with false in Hok1 by reflexivity. cbn [orb] in Hok1.
       change (nlen [47]) with 1 in *. replace ((1 <? 1) || (1 =? 0)) with false in * by reflexivity.
-      rewrite (parse_path_segment_exact_root dbg ps s0 seg Hps Hu1 Hk1 Hok1). cbn [unpres bindo].
+      destruct (parse_path_segment_exact_root dbg ps s0 seg Hps Hu1 Hk1 Hok1) as [hh1 Er]. rewrite Er. cbn [unpres bindo].
       rewrite <- app_assoc. apply IH; assumption.
     + destruct (fpi_b_file_path_inv P HP1) as [HL Hinv].
       replace ((1 <? nlen P) || (nlen P =? 0)) with true in * by (symmetry; apply orb_true_iff; left; apply N.ltb_lt; lia).
